@@ -257,18 +257,18 @@ fn has_like(e: &E) -> bool {
 }
 
 
-fn has_inlist(e: &E) -> bool {
+fn has_defn(e: &E) -> bool {
     match e {
-        E::InList(..) => true,
+        E::InList(..) | E::SimpleCase(..) => true,
         E::Col(_) | E::Lit(..) => false,
-        E::Arith(_, l, r) | E::Cmp(_, l, r) | E::And(l, r) | E::Or(l, r) | E::Distinct(_, l, r) | E::Like(_, _, l, r) => has_inlist(l) || has_inlist(r),
-        E::Not(x) | E::IsNull(_, x) => has_inlist(x),
-        E::Between(_, a, b, c) => has_inlist(a) || has_inlist(b) || has_inlist(c),
-        E::Case(ws, els) => ws.iter().any(|(w, t)| has_inlist(w) || has_inlist(t)) || els.as_ref().map_or(false, |x| has_inlist(x)),
-        E::SimpleCase(o, ws, els) => has_inlist(o) || ws.iter().any(|(w, t)| has_inlist(w) || has_inlist(t)) || els.as_ref().map_or(false, |x| has_inlist(x)),
+        E::Arith(_, l, r) | E::Cmp(_, l, r) | E::And(l, r) | E::Or(l, r) | E::Distinct(_, l, r) | E::Like(_, _, l, r) => has_defn(l) || has_defn(r),
+        E::Not(x) | E::IsNull(_, x) => has_defn(x),
+        E::Between(_, a, b, c) => has_defn(a) || has_defn(b) || has_defn(c),
+        E::Case(ws, els) => ws.iter().any(|(w, t)| has_defn(w) || has_defn(t)) || els.as_ref().map_or(false, |x| has_defn(x)),
     }
 }
-/// the definition of IN: x IN (l1..ln) = x = l1 OR ... OR x = ln (FALSE for n = 0); NOT IN = NOT of it
+/// definitional rewriting: x IN (l1..ln) = x = l1 OR ... OR x = ln (FALSE for n = 0), NOT IN = NOT of it;
+/// CASE x WHEN w THEN t = CASE WHEN x = w THEN t
 fn or_chain(e: &E) -> E {
     let f = |x: &E| bx(or_chain(x));
     match e {
@@ -295,7 +295,11 @@ fn or_chain(e: &E) -> E {
         E::Distinct(n, l, r) => E::Distinct(*n, f(l), f(r)),
         E::Between(n, a, b, c) => E::Between(*n, f(a), f(b), f(c)),
         E::Case(ws, els) => E::Case(ws.iter().map(|(w, t)| (or_chain(w), or_chain(t))).collect(), els.as_ref().map(|x| f(x))),
-        E::SimpleCase(o, ws, els) => E::SimpleCase(f(o), ws.iter().map(|(w, t)| (or_chain(w), or_chain(t))).collect(), els.as_ref().map(|x| f(x))),
+        // CASE x WHEN w THEN t ... = CASE WHEN x = w THEN t ...
+        E::SimpleCase(o, ws, els) => {
+            let o = or_chain(o);
+            E::Case(ws.iter().map(|(w, t)| (E::Cmp("=", bx(o.clone()), bx(or_chain(w))), or_chain(t))).collect(), els.as_ref().map(|x| f(x)))
+        }
         E::Like(n, c, l, r) => E::Like(*n, *c, f(l), f(r)),
     }
 }
@@ -590,11 +594,11 @@ fn run_case(id: u64, c: &Case_) {
             why = format!("row-by-row evaluation panicked: {e}");
         }
     }
-    // second direct oracle: IN lists against their definition (the OR chain of equalities), planned and
-    // evaluated by the same engine
+    // second direct oracle: IN lists / CASE x WHEN against their definitions (OR chain of equalities, searched
+    // CASE), planned and evaluated by the same engine
     let frozen = frozen_inlist(&p);
     let mut alt_txt = "null".to_string();
-    if why.is_empty() && has_inlist(&c.e) {
+    if why.is_empty() && has_defn(&c.e) {
         let alt_e = or_chain(&c.e);
         if let Ok(Ok(ap)) = catch_unwind(AssertUnwindSafe(|| plan(&cx, &alt_e))) {
             let alt = match &c.sel {
@@ -604,7 +608,7 @@ fn run_case(id: u64, c: &Case_) {
             if let (Ok(vs), Ok(avs)) = (&vec_res, &alt) {
                 alt_txt = jcol(avs);
                 if let Some(k) = (0..vs.len().min(avs.len())).find(|&k| vs[k] != avs[k]) {
-                    why = format!("IN list differs from its OR-chain definition at row {}: {} vs {}{}", idx[k], jv(&vs[k]), jv(&avs[k]), if frozen { " (non-constant list element frozen into a static filter)" } else { "" });
+                    why = format!("result differs from the definitional rewriting (IN list as OR-chain of equalities, CASE x WHEN w as CASE WHEN x = w) at row {}: {} vs {}{}", idx[k], jv(&vs[k]), jv(&avs[k]), if frozen { " (non-constant list element frozen into a static filter)" } else { "" });
                 }
             }
         }
